@@ -10,6 +10,7 @@ if [ "${ROUND:-}" = b ]; then SRC=/tmp/mutb-$P-out; ID=$((N+2)); fi
 if [ "${ROUND:-}" = c ]; then SRC=/tmp/mutc-$P-out; ID=$((N+4)); fi
 if [ "${ROUND:-}" = d ]; then SRC=/tmp/mutd-$P-out; ID=$((N+6)); fi
 if [ "${ROUND:-}" = e ]; then SRC=/tmp/mute-$P-out; ID=$((N+8)); fi
+if [ "${ROUND:-}" = f ]; then SRC=/tmp/mutf-$P-out; ID=$((N+10)); fi
 WT=/tmp/seedchk-$P-$ID
 export GOFLAGS=-mod=mod GOPROXY=off GOSUMDB=off GOTOOLCHAIN=local
 git -C /repo worktree remove --force $WT 2>/dev/null
